@@ -83,10 +83,23 @@ def count_invariant(two_d, name, e, x, z, y, max_iter, tol, extra=None):
             f'({rc.calls} rule calls, {rc.exits} early exit{"s" if rc.exits != 1 else ""})')
 
 
-def load_golden():
+def load_golden_file():
     if os.path.exists(GOLDEN):
         return json.load(open(GOLDEN))
     return {}
+
+
+def load_golden():
+    """per-method budget code.  The codes are read off the loop headers in the source by the translator (`Gen/Loops`, theorem
+    `loops_budget_code`); golden/loop_budget.json, the hand-derived table used before, is kept and cross-checked against the
+    translated table on every run (looptbl.table_check), and only fills in methods the translator has no row for"""
+    g = load_golden_file()
+    try:
+        from . import looptbl
+        g.update({k: v for k, v in looptbl.budget_codes().items() if v in ('N+1', 'N', 'N-1')})
+    except Exception:       # noqa: BLE001 - an unreadable source is reported by the translator itself
+        pass
+    return g
 
 
 def budget_of(code, max_iter):
